@@ -77,7 +77,25 @@ def fn_code_hash(fn: Callable, salt: str = None, environment: bytes = None) -> s
             sha256.update(json.dumps(attr_values, sort_keys=True).encode("utf-8"))
             return sha256.hexdigest()[0:16]
         else:
-            return repr(o)
+            return stable_repr(o)
+
+    def stable_repr(o):
+        """
+        repr() of a constant, except that the members of a frozenset (the constant the
+        compiler emits for `x in {...}`) are listed in sorted order: the iteration order of
+        a set of strings depends on PYTHONHASHSEED and must not leak into the hash.
+
+        """
+        if isinstance(o, frozenset):
+            return "frozenset({" + ", ".join(sorted(stable_repr(x) for x in o)) + "})"
+        if type(o) is tuple:
+            return (
+                "("
+                + ", ".join(stable_repr(x) for x in o)
+                + ("," if len(o) == 1 else "")
+                + ")"
+            )
+        return repr(o)
 
     if isinstance(fn, MementoFunctionType):
         memento_fn = fn  # type: MementoFunctionType
